@@ -317,12 +317,13 @@ func checkC09(tier, replay string) int {
 	ctx.Cov["transitions"] = st.transitions
 	ctx.Cov["traces_validated_against_impl"] = st.replayed
 	refusedNoMem, budgetLoads := c09Budget(ctx)
+	ctx.Cov["loads_of_policies_that_restrict_nothing"] = c09Permissive(ctx)
 	ctx.Cov["budget_history_loads"] = budgetLoads
 	ctx.Cov["budget_history_refusals_ENOMEM"] = refusedNoMem
 	ctx.Cov["final_steps_by_kernel_answer"] = map[string]int64{"attached": st.attached, "tsync_refused": st.refusals, "EACCES": st.eacces, "EINVAL": st.einval, "invalid_policy_no_kernel_contact": st.invalid, "EPERM_from_an_earlier_filter_that_denies_seccomp": st.denied}
 	ctx.Cov["model_kernel_mismatches"] = st.modelMismatch
 	ctx.Cov["depth"] = depth
-	ctx.Cov["rule"] = "explicit-state breadth-first search over the kernel model (3 harness threads + the class of all other threads; per thread: no_new_privs bit and filter stack with ancestry) with 85 operations (Load on T0..T2 x {A,B,invalid (unknown name / argument index 6 / empty condition list, by thread),oversize,badflag,denysec = a filter that answers EPERM to seccomp(2) itself} x tsync x nnp, valid kinds also with the log flag; Supported) from the privileged and the uid-65534 initial state, deduplicated on the canonical model state; every transition is replayed by running its shortest history plus the operation through the real LoadFilter in a fresh child process, reading /proc/self/task/*/status and probing after every step; plus the budget history: the same 3.7k-instruction filter is loaded on one thread until the kernel's per-thread limit (32768 instructions) refuses it with ENOMEM - after every one of the 12 loads nil <=> the thread's filter count grew"
+	ctx.Cov["rule"] = "explicit-state breadth-first search over the kernel model (3 harness threads + the class of all other threads; per thread: no_new_privs bit and filter stack with ancestry) with 85 operations (Load on T0..T2 x {A,B,invalid (unknown name / argument index 6 / empty condition list, by thread),oversize,badflag,denysec = a filter that answers EPERM to seccomp(2) itself} x tsync x nnp, valid kinds also with the log flag; Supported) from the privileged and the uid-65534 initial state, deduplicated on the canonical model state; every transition is replayed by running its shortest history plus the operation through the real LoadFilter in a fresh child process, reading /proc/self/task/*/status and probing after every step; plus the budget history: the same 3.7k-instruction filter is loaded on one thread until the kernel's per-thread limit (32768 instructions) refuses it with ENOMEM - after every one of the 12 loads nil <=> the thread's filter count grew; plus valid policies that restrict nothing (an allow group under an allow default, two of them, a deny group without names, the LOG default with a LOG group) loaded once and twice on T0/T1 x tsync x {root, uid 65534}: nil <=> the loading thread's filter count grew by one - 'in force' is a fact about the kernel, not about what the filter forbids"
 	ctx.Assumptions = []string{"kernel model kmodel (validated against this kernel on every transition: model_kernel_mismatches must be 0)", "state deduplication is sound because the compared observables (NNP, filter count, probe answers of every thread) plus the ancestry structure kept in the canonical form are the whole state the kernel rules depend on", "runtime threads other than the three harness threads only change through thread-sync"}
 	return ctx.Finish()
 }
@@ -344,6 +345,24 @@ func replayC09(path string) int {
 		Case struct {
 			Budget bool `json:"budget_history"`
 		} `json:"case"`
+	}
+	var pm struct {
+		Case struct {
+			Perm bool `json:"permissive_policy"`
+		} `json:"case"`
+	}
+	if readJSON(path, &pm) == nil && pm.Case.Perm {
+		fmt.Println("replaying the loads of policies that restrict nothing")
+		c09Permissive(ctx)
+		if ctx.NumViolations() > 0 {
+			for _, l := range ctx.Describe() {
+				fmt.Println(l)
+			}
+			fmt.Println("REPRODUCED")
+			return 1
+		}
+		fmt.Println("not reproduced (property holds on these loads)")
+		return 0
 	}
 	if readJSON(path, &b) == nil && b.Case.Budget {
 		fmt.Println("replaying the budget history (12 loads of one large filter on one thread; root and uid 65534, without and with thread-sync)")
@@ -427,5 +446,63 @@ func c09Budget(ctx *evid.Ctx) (refused, loads int64) {
 			}
 		}
 	}
+	return
+}
+
+// c09Permissive: valid policies under which nothing is denied. Whether a filter is in force is a kernel fact (Seccomp: 2, one
+// more filter in Seccomp_filters; on x86_64 it also starts answering ENOSYS to x32 numbers), so nil <=> the count grew holds
+// for them as for any other policy.
+func c09Permissive(ctx *evid.Ctx) (loads int64) {
+	kinds := []string{"perm-allowgroup", "perm-twoallow", "perm-emptydeny", "perm-log"}
+	type job struct {
+		kind  string
+		priv  bool
+		t     int
+		tsync uint32
+	}
+	var jobs []job
+	for _, k := range kinds {
+		for _, priv := range []bool{true, false} {
+			for _, t := range []int{0, 1} {
+				for _, ts := range []uint32{0, 1} {
+					jobs = append(jobs, job{k, priv, t, ts})
+				}
+			}
+		}
+	}
+	parallelFor(len(jobs), func(i int) {
+		j := jobs[i]
+		sc := &histScript{Threads: c09Threads}
+		sc.Ops = append(sc.Ops, histOp{Op: "state"}, histOp{Op: "load", T: j.t, Kind: j.kind, Flags: j.tsync, NNP: true}, histOp{Op: "state"}, histOp{Op: "load", T: j.t, Kind: j.kind, Flags: j.tsync, NNP: true}, histOp{Op: "state"})
+		hr := runHist(sc, !j.priv)
+		rep := map[string]any{"privileged": j.priv, "permissive_policy": true, "kind": j.kind, "thread": j.t, "tsync": j.tsync}
+		if p := loadPanic(hr.Results); p != "" {
+			ctx.Violation("C09:load-panicked:permissive", "LoadFilter panicked on a policy that restricts nothing: "+p, rep)
+			return
+		}
+		if hr.TimedOut || len(hr.Results) != 5 {
+			ctx.Capped("a permissive-policy child did not complete")
+			return
+		}
+		count := func(r histResult, tid int) int {
+			for _, o := range r.State {
+				if o.Tid == tid {
+					return o.Filters
+				}
+			}
+			return -1
+		}
+		for k := 0; k < 2; k++ {
+			ld, before, after := hr.Results[1+2*k], hr.Results[2*k], hr.Results[2+2*k]
+			atomic.AddInt64(&loads, 1)
+			fb, fa := count(before, ld.Tid), count(after, ld.Tid)
+			switch {
+			case ld.Err == nil && fa != fb+1:
+				ctx.Violation("C09:nil-without-filter:permissive:"+j.kind, fmt.Sprintf("load #%d of a valid policy that restricts nothing (%s) returned nil but the loading thread's filter count went %d -> %d: no filter is in force", k+1, j.kind, fb, fa), rep)
+			case ld.Err != nil && fa != fb:
+				ctx.Violation("C09:failed-load-left-filter:permissive:"+j.kind, fmt.Sprintf("load #%d (%s) failed (%s) but the filter count went %d -> %d", k+1, j.kind, *ld.Err, fb, fa), rep)
+			}
+		}
+	})
 	return
 }
